@@ -64,6 +64,7 @@ type c06req struct {
 }
 
 type c06sys struct {
+	declaredTwice bool // every route behind auth is also declared, earlier, without auth and with another body
 	direct    bool
 	do        func(r *c06req)
 	jwtSecret string   // configured (trimmed, non-blank) or ""
@@ -288,6 +289,12 @@ func c06build(s *sim.Sim, p *sim.Params) *c06sys {
 				after = fmt.Sprintf("  + ratelimit(100000000/%s)\n", window)
 			}
 			k := kindOf(rt)
+			if shape == 7 && k != "open" {
+				// the same verb and path declared twice: first without auth (another body), then
+				// with it. Whichever declaration answers, the body behind auth is not for callers
+				// without a credential.
+				fmt.Fprintf(&src, "  > {marker: \"public-side-of%s\"}\n}\n\n@ %s %s {\n", strings.ReplaceAll(rt.path, "/", "-"), rt.verb(), rt.path)
+			}
 			if k == "open" {
 				// nothing to protect: the extras stay, the declaration is absent
 				src.WriteString(before)
@@ -301,10 +308,12 @@ func c06build(s *sim.Sim, p *sim.Params) *c06sys {
 		}
 		return src.String()
 	}
-	if shape != 0 && shape < 7 {
+	y.declaredTwice = shape == 7
+	if shape != 0 {
 		if _, err := simBuildServer(module(func(rt c06route) string { return rt.kind }), false); err != nil {
 			s.Probe("route-shape-not-accepted")
 			shape = 0
+			y.declaredTwice = false
 		} else {
 			s.Probe("auth-among-other-declarations")
 		}
@@ -400,6 +409,47 @@ func c06Run(s *sim.Sim, p *sim.Params) {
 		}
 	}
 	var hs []*sim.Handle
+	if len(y.creds("jwt")) > 0 && s.Choose(sim.SWork, 6) == 0 {
+		// a persistent attacker: wrong credentials again and again, each time as soon as the
+		// previous lockout can have ended, until the lockout has grown as long as it may get;
+		// then the same client waits out the longest lockout there is and presents the valid
+		// credential
+		s.Probe("persistent-attacker-run")
+		var jwtRoute c06route
+		for _, rt := range routes {
+			if rt.kind == "jwt" {
+				jwtRoute = rt
+			}
+		}
+		ci := nclients + 7
+		send := func(shape, token string, valid bool) *c06req {
+			r := &c06req{client: ci, route: jwtRoute, shape: shape, canonical: valid, carries: valid, badCred: !valid}
+			r.hdr = [][2]string{{"Authorization", "Bearer " + token}}
+			r.at = s.Now()
+			r.call = s.Stamp()
+			hist = append(hist, r)
+			y.do(r)
+			r.ret = s.Stamp()
+			return r
+		}
+		rounds := 6 + s.Choose(sim.SWork, 5)
+		hs = append(hs, s.Spawn("attacker", func() {
+			for k := 0; k < y.cfg.MaxFailures; k++ {
+				send("wrong-credential", fmt.Sprintf("guess-%d", k), false)
+			}
+			wait := y.cfg.LockoutDuration
+			for i := 0; i < rounds; i++ {
+				if wait > y.cfg.MaxLockout {
+					wait = y.cfg.MaxLockout
+				}
+				s.Sleep(wait + 2*time.Millisecond)
+				send("wrong-credential", fmt.Sprintf("guess-again-%d", i), false)
+				wait *= 2
+			}
+			s.Sleep(y.cfg.MaxLockout + 2*time.Millisecond)
+			send("canonical", y.creds("jwt")[0], true)
+		}))
+	}
 	for ci := 0; ci < nclients; ci++ {
 		nsteps := 2 + s.Choose(sim.SWork, 10)
 		steps := make([]step, nsteps)
@@ -464,6 +514,14 @@ func c06check(s *sim.Sim, y *c06sys, hist []*c06req, sample *[]string) {
 			continue
 		}
 		configured := len(y.creds(r.route.kind)) > 0
+		if y.declaredTwice {
+			// (the path is also declared without auth: which declaration answers is the router's
+			// business; the body behind auth stays behind auth)
+			if ran && (!r.carries || !configured) {
+				s.Fail("oracle", "fail-closed:"+r.route.kind+":declared-twice", fmt.Sprintf("request %q to %s carries no configured credential; the path is declared twice (first without auth, with another body) and the answer %d carries the body of the declaration behind auth", r.shape, r.route.path, r.status))
+			}
+			continue
+		}
 		// (i) fail closed
 		if !r.carries || !configured {
 			if ran || r.status == 200 {
